@@ -1047,12 +1047,20 @@ class Node:
         if not predicate:
             raise ValueError("Predicate is required (use copy() instead)")
 
+        stopped = False
+
         def _visit(parent: Node) -> bool:
             """Return True if any descendant returned True."""
+            nonlocal stopped
             remove_nodes = []
             must_keep = False
 
             for n in parent.children:
+                if stopped:
+                    # Traversal was stopped: nodes that were not visited are
+                    # not accepted (same result as `filtered()`)
+                    remove_nodes.append(n)
+                    continue
                 res = call_predicate(predicate, n)
                 if res in (None, False):  # Keep only if has a `true` descendant
                     if _visit(n):
@@ -1067,20 +1075,20 @@ class Node:
                     must_keep = True
                 elif isinstance(res, SkipBranch):
                     if res.and_self is False:
-                        remove_nodes = n.children
+                        # Keep the node itself, but remove its children
+                        remove_nodes.extend(n.children)
+                        must_keep = True
                     else:
                         remove_nodes.append(n)
                 elif isinstance(res, StopTraversal):
-                    raise res
+                    stopped = True
+                    remove_nodes.append(n)
 
             for n in remove_nodes:
                 n.remove()
             return must_keep
 
-        try:
-            _visit(self)
-        except StopTraversal:
-            pass
+        _visit(self)
         return
 
     def from_dict(
